@@ -90,6 +90,7 @@ static_harness!(c01_q_st_se_def_n2g14_x_pl, n=2, words=1, unwind=6, Sem::ST, Enc
 static_harness!(c01_q_gr_se_def_n2g2_x_s1, n=2, words=1, unwind=6, Sem::GR, Enc::Default, Kind::SE, Pres::SparseFirst, cert=false, ANSWER, qs=[[]], fault=0, codes=[2]);
 static_harness!(c01_q_gr_se_def_n2g6_x_du, n=2, words=1, unwind=6, Sem::GR, Enc::Default, Kind::SE, Pres::Dup, cert=false, ANSWER, qs=[[]], fault=0, codes=[6]);
 static_harness!(c01_q_gr_se_def_n2g10_x_pl, n=2, words=1, unwind=6, Sem::GR, Enc::Default, Kind::SE, Pres::Plain, cert=false, ANSWER, qs=[[]], fault=0, codes=[10]);
+static_harness!(c01_x_co_se_def_n2g14_x_s2, n=2, words=1, unwind=6, Sem::CO, Enc::Default, Kind::SE, Pres::SparseMid, cert=false, ANSWER, qs=[[]], fault=0, codes=[14]);
 static_harness!(c01_q_st_se_def_n3g42_x_pl, n=3, words=1, unwind=7, Sem::ST, Enc::Default, Kind::SE, Pres::Plain, cert=false, ANSWER, qs=[[]], fault=0, codes=[42]);
 static_harness!(c01_t_st_se_def_n2g9_x_pl, n=2, words=1, unwind=6, Sem::ST, Enc::Default, Kind::SE, Pres::Plain, cert=false, ANSWER, qs=[[]], fault=0, codes=[9]);
 static_harness!(c01_t_st_se_def_n2g2_x_pl, n=2, words=1, unwind=6, Sem::ST, Enc::Default, Kind::SE, Pres::Plain, cert=false, ANSWER, qs=[[]], fault=0, codes=[2]);
@@ -198,6 +199,7 @@ static_harness!(c03_t_gr_ds_def_n3g34_c_du, n=3, words=1, unwind=7, Sem::GR, Enc
 static_harness!(c03_t_gr_ds_def_n3g42_c_du, n=3, words=1, unwind=7, Sem::GR, Enc::Default, Kind::DS, Pres::Dup, cert=false, ANSWER, qs=[[2]], fault=0, codes=[42]);
 static_harness!(c03_t_gr_ds_def_n3g290_b_du, n=3, words=1, unwind=7, Sem::GR, Enc::Default, Kind::DS, Pres::Dup, cert=false, ANSWER, qs=[[1]], fault=0, codes=[290]);
 static_harness!(c03_t_gr_ds_def_n3g137_a_du, n=3, words=1, unwind=7, Sem::GR, Enc::Default, Kind::DS, Pres::Dup, cert=false, ANSWER, qs=[[0]], fault=0, codes=[137]);
+static_harness!(c04_x_co_dc_aux_n3g0_a_pl_cert, n=3, words=2, unwind=9, Sem::CO, Enc::AuxCo, Kind::DC, Pres::Plain, cert=true, CERT, qs=[[0]], fault=0, codes=[0]);
 static_harness!(c04_x_st_dc_def_n2g0_a_pl_cert, n=2, words=1, unwind=6, Sem::ST, Enc::Default, Kind::DC, Pres::Plain, cert=true, CERT, qs=[[0]], fault=0, codes=[0]);
 static_harness!(c04_q_st_dc_def_n2g2_a_pl_cert, n=2, words=1, unwind=6, Sem::ST, Enc::Default, Kind::DC, Pres::Plain, cert=true, CERT, qs=[[0]], fault=0, codes=[2]);
 static_harness!(c04_q_st_dc_def_n2g6_b_pl_cert, n=2, words=1, unwind=6, Sem::ST, Enc::Default, Kind::DC, Pres::Plain, cert=true, CERT, qs=[[1]], fault=0, codes=[6]);
@@ -231,6 +233,7 @@ static_harness!(c04_t_st_ds_def_n3g42_b_pl_cert, n=3, words=1, unwind=7, Sem::ST
 static_harness!(c04_t_st_ds_def_n3g34_b_pl_cert, n=3, words=1, unwind=7, Sem::ST, Enc::Default, Kind::DS, Pres::Plain, cert=true, CERT, qs=[[1]], fault=0, codes=[34]);
 static_harness!(c07_x_co_dc_aux_n2g6_ab_pl_cert, n=2, words=1, unwind=7, Sem::CO, Enc::AuxCo, Kind::DC, Pres::Plain, cert=true, CERT, qs=[[0, 1]], fault=0, codes=[6]);
 static_harness!(c07_x_co_dc_aux_n2g0_ab_pl_cert, n=2, words=1, unwind=7, Sem::CO, Enc::AuxCo, Kind::DC, Pres::Plain, cert=true, CERT, qs=[[0, 1]], fault=0, codes=[0]);
+static_harness!(c07_x_co_dc_aux_n2g14_ba_pl_cert, n=2, words=1, unwind=7, Sem::CO, Enc::AuxCo, Kind::DC, Pres::Plain, cert=true, CERT, qs=[[1, 0]], fault=0, codes=[14]);
 static_harness!(c07_q_co_dc_aux_n2g6_ab_pl, n=2, words=1, unwind=7, Sem::CO, Enc::AuxCo, Kind::DC, Pres::Plain, cert=false, ANSWER, qs=[[0, 1]], fault=0, codes=[6]);
 static_harness!(c07_q_st_dc_def_n2g2_ba_pl_cert, n=2, words=1, unwind=6, Sem::ST, Enc::Default, Kind::DC, Pres::Plain, cert=true, CERT, qs=[[1, 0]], fault=0, codes=[2]);
 static_harness!(c07_q_st_dc_def_n2g9_aa_pl_cert, n=2, words=1, unwind=6, Sem::ST, Enc::Default, Kind::DC, Pres::Plain, cert=true, CERT, qs=[[0, 0]], fault=0, codes=[9]);
